@@ -4990,6 +4990,12 @@ class Path:
         ):
             if not new_path.jumped:
                 new_path.jumped = True
+                # the destinations are rewritten for this path (and its
+                # continuations) only: do not touch the segments shared with
+                # the other paths
+                new_path.segments = {
+                    segid: copy(seg) for segid, seg in new_path.segments.items()
+                }
                 for segid in new_path.segments.keys():
                     seg = new_path.segments[segid]
                     # if destinations await the second round, add them
